@@ -1468,7 +1468,7 @@ def main(tier, seed=0, replay=None, only=None, procs=None):
         import os
 
         try:
-            ev = json.load(open(os.path.join(os.path.dirname(os.path.dirname(os.path.abspath(__file__))), 'evidence', f'{PID}.json')))
+            ev = json.load(open(os.path.join(os.path.dirname(os.path.dirname(os.path.abspath(__file__))), 'evidence', f"{PID}{os.environ.get('VERIF_EVIDENCE_SUFFIX', '') or ('.partial' if only else '')}.json")))
             n_exact = ev['coverage']['vcs_by_stage']['exact_unsat']
         except Exception:
             n_exact = 0
